@@ -305,6 +305,25 @@ class Style:
         return self.rng.choice(['  %s ' % o, ' %s  ' % o, '  %s  ' % o])
 
 
+class BadOpStyle(Style):
+    """canonical printing, except that the k-th binary operator is not surrounded by blanks on both sides"""
+
+    def __init__(self, k, variant):
+        super().__init__(None); self.k, self.variant, self.n = k, variant, 0
+
+    def op(self, o):
+        self.n += 1
+        if self.n - 1 != self.k: return ' %s ' % o
+        return [' %s' % o, '%s ' % o, o][self.variant]
+
+
+def bad_operator_spacing(ast, rng, v1=False):
+    """a printing of `ast` that violates the rule that + - / must be surrounded by whitespace (None if no operator)"""
+    probe = BadOpStyle(-1, 0); pr(ast, probe, v1)
+    if probe.n == 0: return None
+    return pr(ast, BadOpStyle(rng.randrange(probe.n), rng.randrange(3)), v1)
+
+
 def pr(node, st=None, v1=False):
     st = st or Style()
     k = node[0]
